@@ -518,7 +518,7 @@ pub fn ins_from_json(v: &Value) -> Ins {
         "not" => Ins::Not { w, dst: opnd_from_json(&v["dst"]) },
         "shift" => {
             let mn = v.get("mn").and_then(|x| x.as_str()).unwrap_or(op);
-            let cnt = if v["cnt"]["k"] == "cl" { Cnt::Cl } else { Cnt::Imm(v["cnt"]["v"].as_u64().unwrap() as u32) };
+            let cnt = if v["cnt"]["k"] == "cl" { Cnt::Cl } else if v["cnt"]["k"] == "reg" { Cnt::Reg(stat(v["cnt"]["r"].as_str().unwrap(), &["al", "bl", "dl", "ch", "dh", "cx", "ax"])) } else { Cnt::Imm(v["cnt"]["v"].as_u64().unwrap() as u32) };
             Ins::Shift { op: stat(op, &["sal", "shr", "sar", "rol", "ror", "rcl", "rcr"]), mn: stat(mn, &["sal", "shl", "shr", "sar", "rol", "ror", "rcl", "rcr"]), w, dst: opnd_from_json(&v["dst"]), cnt }
         }
         "adjust" => Ins::Adjust { op: stat(op, &["aaa", "aas", "daa", "das", "aam", "aad", "cbw", "cwd"]) },
